@@ -251,19 +251,19 @@ def rule_X(ctx, rule='C11.X'):
                     continue
                 src = T([O(k) for k in range(n)], 'u', 't')
                 src.call('createAnalyticalFeature', 'f', [10 * k for k in range(n)])
-                before = [(o.k, list(o.features)) for o in src.fields['__POINTS']]
+                before = [(o.k, list(o.features)) for o in src.fields['_Track__POINTS']]
                 res = src.call('extract', a, b)
                 total += 1
-                got = [(o.k, list(o.features)) for o in res.fields['__POINTS']] if isinstance(res, orders.Obj) else None
+                got = [(o.k, list(o.features)) for o in res.fields['_Track__POINTS']] if isinstance(res, orders.Obj) else None
                 want = before[a:b + 1]
                 case = {'extract': [a, b], 'observations returned (index, features)': got, 'expected': want}
                 if got != want:
                     bad = dict(case, why='extract(id_ini, id_fin) designates the inclusive index range, whatever the values of the bounds (0 included)')
-                elif res.fields.get('__analyticalFeaturesDico') != src.fields.get('__analyticalFeaturesDico'):
-                    bad = dict(case, why='the feature table is not carried over', table=repr(res.fields.get('__analyticalFeaturesDico')))
-                elif res.fields.get('__analyticalFeaturesDico') is src.fields.get('__analyticalFeaturesDico'):
+                elif res.fields.get('_Track__analyticalFeaturesDico') != src.fields.get('_Track__analyticalFeaturesDico'):
+                    bad = dict(case, why='the feature table is not carried over', table=repr(res.fields.get('_Track__analyticalFeaturesDico')))
+                elif res.fields.get('_Track__analyticalFeaturesDico') is src.fields.get('_Track__analyticalFeaturesDico'):
                     bad = dict(case, why='the result shares the name->column dictionary of the source: creating or deleting a feature on one changes the other')
-                elif [(o.k, list(o.features)) for o in src.fields['__POINTS']] != before:
+                elif [(o.k, list(o.features)) for o in src.fields['_Track__POINTS']] != before:
                     bad = dict(case, why='the source track is modified')
                 if bad:
                     break
